@@ -30,12 +30,31 @@ sim::Plan generate(const std::string& prop, uint64_t subseed, const sim::Tier& t
   p.seti("reserve", rng.chance(3, 4) ? 1 : 0);
   int nops = (int)rng.range(4, tier.thorough() ? 50 : 36);
   int audit_every = (int)rng.range(1, 5);
-  int w_ins = (int)rng.range(4, 10), w_rm = rng.chance(3, 4) ? (int)rng.range(1, 4) : 0, w_cyc = prop == "C08" ? (int)rng.range(2, 5) : 1;
+  if (vine) {
+    // a seeded walk in the graph of admissible filtration orders, interleaved with removals and insertions
+    p.seti("custom_ids", rng.chance(1, 3) ? 1 : 0);
+    int n0 = (int)rng.range(3, 10);
+    for (int i = 0; i < n0; ++i) p.add(0, "ins", {(long)rng.below(4096), (long)rng.below(3), (long)rng.below(2)});
+    p.add(2, "audit");
+    int w_swap = (int)rng.range(5, 12), w_z1 = rng.chance(1, 2) ? (int)rng.range(1, 3) : 0, w_rml = rng.chance(2, 3) ? (int)rng.range(1, 2) : 0, w_rmx = rng.chance(2, 3) ? (int)rng.range(1, 3) : 0, w_ins = rng.chance(3, 4) ? (int)rng.range(1, 3) : 0;
+    for (int i = 0; i < nops; ++i) {
+      long k = rng.below(w_swap + w_z1 + w_rml + w_rmx + w_ins);
+      if (k < w_swap) p.add(1, "swap", {(long)rng.below(4096), (long)rng.below(3)});
+      else if (k < w_swap + w_z1) p.add(1, "swap_z1", {(long)rng.below(4096), (long)rng.below(3)});
+      else if (k < w_swap + w_z1 + w_rml) p.add(3, "rm_last");
+      else if (k < w_swap + w_z1 + w_rml + w_rmx) p.add(3, "rm_max", {(long)rng.below(4096), (long)rng.below(2), (long)rng.below(2)});
+      else p.add(0, "ins", {(long)rng.below(4096), (long)rng.below(3), (long)rng.below(2)});
+      if (rng.below(audit_every) == 0) p.add(2, "audit");
+    }
+    p.add(2, "audit");
+    return p;
+  }
+  int w_ins = (int)rng.range(4, 10), w_rm = rng.chance(3, 4) ? (int)rng.range(1, 4) : 0, w_cyc = prop == "C08" ? (int)rng.range(2, 5) : 0;  // representative cycles are C08's subject
   for (int i = 0; i < nops; ++i) {
     long k = rng.below(w_ins + w_rm + w_cyc);
     if (k < w_ins) p.add(0, "ins", {(long)rng.below(4096), (long)rng.below(3), (long)rng.below(2)});
     else if (k < w_ins + w_rm) { p.add(1, "rm_last"); if (rng.chance(1, 3)) p.add(1, "rm_last"); }
-    else p.add(2, "cycles");
+    else if (w_cyc) p.add(2, "cycles");
     if (rng.below(audit_every) == 0) p.add(2, "audit");
   }
   if (prop == "C08") p.add(2, "cycles");
@@ -50,7 +69,7 @@ void execute(const sim::Plan& p, sim::Run& r) {
     if (c.group != grp) continue;
     if (!only.empty() && only != c.name) continue;
     pmh::Obs o; r.log(c.name);
-    c.exec(p, r, o);
+    try { c.exec(p, r, o); } catch (const sim::Failure&) { throw; } catch (const std::exception& ex) { r.fail("exception", std::string("[") + c.name + "] unexpected exception: " + ex.what()); }
     all.emplace_back(c.name, o);
   }
   if (all.empty()) r.fail("harness", "no configuration of group " + grp + " compiled in");
